@@ -191,7 +191,13 @@ def run(tier):
     body = "sp1;a0.ld;jn0|" + ";".join(["a0.add.1"] * m)
     pats = "+".join("O0:7:1,%d@" % v for v in range(m + 1))
     stats = []
-    for d, N, vs in [(1, 2000, [0, m]), (2, 8000 if tier == "quick" else 40000, list(range(1, m)))]:
+    # depth 3 (two change points): main loads twice; "the first load returns v (0 < v < m3) and the second returns m3" needs T1
+    # ahead of main, a change point after T1's v-th increment, and another one right after main's first load
+    m3 = 4
+    body3 = "sp1;a0.ld;a0.ld;jn0|" + ";".join(["a0.add.1"] * m3)
+    pats3 = "+".join("O0:7:1,%d@&O0:7:1,%d@" % (v, m3) for v in range(m3))
+    for d, N, vs, body, pats in [(1, 2000, [0, m], body, pats), (2, 8000 if tier == "quick" else 40000, list(range(1, m)), body, pats),
+                                 (3, 40000 if tier == "quick" else 200000, list(range(1, m3)), body3, pats3)]:
         seed = rng.getrandbits(48)
         case = "hits pct %d %d %d a0 %s %s" % (seed, d, N, body, pats)
         o = ctx.run_impl("prog", [case])[0]
